@@ -17,7 +17,7 @@ from ..report import Report, key_of
 from ..types import Ctx
 from .c01 import check_run_argument_binding
 from .c08 import check_expand_tasks
-from ..terms import assume, pretty
+from ..terms import assume, has_opaque, pretty
 from .common import TRUSTED_BASE, bound_args, effects_of, inl, subst_single_assign, where
 
 STAGES = ['_process_config', '_create_tasks', '_process_dependencies', '_build_graph', '_init_objects']
@@ -88,14 +88,42 @@ def run(A, R: Report, thorough: bool):
     R.check(not evs, 'R19.2', 'MockTask.value: effects', key_of('mock-effects', [e.kind for e in evs]), 'no run / file-system effect', f'reading a mocked value has effects: {[e.describe()[:80] for e in evs]}', where=where(fval))
     fct = tc.methods.get('_create_tasks')
     R.require(fct is not None, 'anchor: TestChain._create_tasks missing')
-    creates = [n for n in A.typer.own_nodes(fct) if isinstance(n, ast.Call) and isinstance(n.func, ast.Attribute) and n.func.attr == '_create_task']
-    ok = bool(creates) and all(len(c.args) >= 2 and src(c.args[1]) == 'self.config' for c in creates)
-    mocks = [n for n in A.typer.own_nodes(fct) if isinstance(n, ast.Call) and src(n.func) == 'MockTask']
-    keyed = [n for n in A.typer.own_nodes(fct) if isinstance(n, ast.Assign) and isinstance(n.targets[0], ast.Subscript) and src(n.targets[0].value) == 'tasks']
-    key_ok = all('fullname(self.config)' in src(k.targets[0].slice) or isinstance(k.targets[0].slice, ast.Name) for k in keyed)
-    loops_ok = all(not any(isinstance(x, (ast.If, ast.Continue, ast.Break)) for x in ast.walk(lp)) for lp in A.typer.own_nodes(fct) if isinstance(lp, ast.For))
-    R.check(ok and bool(mocks) and key_ok and loops_ok, 'R19.2', 'TestChain._create_tasks', key_of('create', ok, bool(mocks), key_ok, loops_ok), 'real tasks via _create_task(cls, self.config); every mock registered under its name',
-            'real tasks are not created like in a chain with the helper config, or some mock / task is skipped', where=where(fct))
+    stop_old = A.sym.stop_at
+    A.sym.stop_at = {fi.qualname for fi in A.prog.functions.values() if fi.name in ('fullname', '_create_task')}
+    try:
+        ct = A.sym.func_term(fct, ('inst', tc))
+    finally:
+        A.sym.stop_at = stop_old
+    cfgt = ('attr', ('self',), 'config')
+
+    def real_part(m):
+        # {cls.fullname(self.config): self._create_task(cls, self.config) for cls in self._tasks}
+        return m[0] == 'mapdict' and len(m[1]) == 1 and m[5] is None and m[4] == ('attr', ('self',), '_tasks') and \
+            m[2][0] == 'ref' and m[2][1].endswith('fullname') and m[2][2] == m[1][0] and m[2][3] == (cfgt,) and \
+            m[3][0] == 'ref' and m[3][1].endswith('_create_task') and m[3][3][:2] == (m[1][0], cfgt)
+
+    def mock_part(m):
+        # {name or cls.fullname(self.config): MockTask(value) for name-or-cls, value in self._mock_tasks.items()}
+        mt = ('attr', ('self',), '_mock_tasks')
+        if m[0] == 'mapdict' and len(m[1]) == 2 and m[5] is None and m[4] == ('items', mt):
+            k, v = m[1]
+        elif m[0] == 'mapdict' and len(m[1]) == 1 and m[5] is None and m[4] in (mt, ('keys', mt)):
+            k, v = m[1][0], ('index', mt, m[1][0])    # for key in mapping: value = mapping[key]
+        else:
+            return False
+        key_ok = m[2] == ('cond', ('isinst', k, ('global', 'str')), k, ('ref', 'MetaTask.fullname', k, (cfgt,))) or (m[2][0] == 'cond' and m[2][2] == k and m[2][3][0] == 'ref' and m[2][3][1].endswith('fullname'))
+        return key_ok and m[3][0] == 'new' and m[3][1] == 'MockTask' and m[3][2] == (v,)
+
+    parts = list(ct[2]) if ct[0] == 'call' and ct[1] == 'merge' else [ct]
+    kinds = ['real' if real_part(p_) else 'mock' if mock_part(p_) else None for p_ in parts]
+    if has_opaque(ct) and None in kinds:
+        R.undecided('R19.2', 'TestChain._create_tasks', 'the created mapping could not be evaluated symbolically', where=where(fct))
+    else:
+        ok_parts = None not in kinds and 'real' in kinds and 'mock' in kinds
+        order_ok = ok_parts and max(i for i, k_ in enumerate(kinds) if k_ == 'real') < min(i for i, k_ in enumerate(kinds) if k_ == 'mock')
+        R.check(ok_parts and order_ok, 'R19.2', 'TestChain._create_tasks', key_of('create', kinds), 'real tasks via _create_task(cls, self.config); every mock registered under its name, mocks last (a mocked name is served by the mock)',
+                ('a task listed both in `tasks` and in `mock_tasks` is served by the real task: the mocked value is ignored and the real task is run' if ok_parts and not order_ok else
+                 'real tasks are not created like in a chain with the helper config, or some mock / task is skipped or renamed'), witness=[pretty(ct)[:400]], where=where(fct))
 
     # ---- R19.3
     R.rule('R19.3', 'the parameters given to the helper are the config data, unchanged', floor=1)
@@ -109,14 +137,18 @@ def run(A, R: Report, thorough: bool):
     for c in cfgs:
         ba = bound_args(c, cinit) or {}
         dn = ba.get('data')
-        ts = A.sym.terms_at(tinit, ('inst', tc), [dn])[id(dn)] if dn is not None else []
+        A.sym.keep_copies = True   # a copy of a parameter object is another object than the one the caller keeps configuring
+        try:
+            ts = A.sym.terms_at(tinit, ('inst', tc), [dn])[id(dn)] if dn is not None else []
+        finally:
+            A.sym.keep_copies = False
         # the data are the argument itself; only `None` may be replaced (by an empty mapping)
         ok = bool(ts) and all(assume(t, lambda c_: False if c_ == ('cmp', 'Is', pt, ('lit', None)) else (True if c_ in (pt, ('cmp', 'IsNot', pt, ('lit', None))) else None)) == pt
                               and assume(t, lambda c_: True if c_ == ('cmp', 'Is', pt, ('lit', None)) else (False if c_ in (pt, ('cmp', 'IsNot', pt, ('lit', None))) else None)) in (('dict', ()), pt, ('call', 'dict', ()))
                               for t in ts)
         shown = pretty(ts[0])[:160] if ts else None
         R.check(ok, 'R19.3', 'TestChain.__init__: Config(data=...)', key_of('params', shown), 'data = the parameters argument',
-                f'the helper\'s config data is `{shown}`: parameters are filtered or rewritten before the task sees them (a real chain passes them as given)', where=where(tinit, c))
+                f'the helper\'s config data is `{shown}`: parameters are filtered, rewritten or copied before the task sees them (a real chain passes the caller\'s objects as given)', where=where(tinit, c))
     sup = [n for n in A.typer.own_nodes(tinit) if isinstance(n, ast.Call) and src(n.func) == 'super().__init__']
     cfg_stores = [n for n in inl(A, tinit) if isinstance(n, ast.Assign) and any(src(t_) == 'self.config' for t_ in n.targets)]
 
